@@ -494,7 +494,7 @@ def run(ctx, only=None):
     ctx.assumptions = ["keys of the map are distinct (Go map); values/kinds/shape entries within their Go types (uint32/uint64); general.alignment, if present, is a uint32 > 0",
                        "every tensor's WriterTo writes exactly Tensor.Size() bytes", "the file is shorter than 2^63 bytes",
                        "Tensor.block (Sscanf) is an oracle: block numbers are taken from the implementation"]
-    ctx.proof_stage(["Gguf"], "Gguf/Properties_C05.v", extra_targets=["Gguf/Corr.v"])
+    ctx.proof_stage(["Gguf"], "Gguf/Properties_C05.v", extra_targets=["Gguf/Corr.v"], expect_theorems=['C05_kv_roundtrip', 'C05_tensor_meta_roundtrip', 'C05_tensor_bytes_at_offset', 'C05_end_offset', 'C05_tensor_bytes_unrepaired_refuted'])
     binp = ctx.go_build("c05")
     if not binp:
         return
